@@ -153,6 +153,134 @@ theorem accepted_max (m : Model) (obj : View) (v : Int) (h : optimum m obj true 
 theorem unsat_iff (m : Model) (obj : View) (mx : Bool) : optimum m obj mx = none ↔ solutions m = [] :=
   optimum_none_iff m obj mx
 
+/-! ### linear UNSAT-SAT (`optimisation/linear_unsat_sat.rs`) -/
+
+/-- the assumption `objective ≤ l` (posted as an assumption; for the oracle an extra constraint) -/
+def leCons (obj : View) (l : Int) : Cons := Cons.linLe [obj] l
+/-- the hard clause `objective ≥ k` added after a failed assumption -/
+def geCons (obj : View) (k : Int) : Cons := Cons.linLe [obj.scaled (-1)] (-k)
+
+theorem leCons_sat (obj : View) (l : Int) (a : List Int) : (leCons obj l).sat a = true ↔ obj.eval a ≤ l := by
+  simp [leCons, Cons.sat, sumViews]
+
+theorem geCons_sat (obj : View) (k : Int) (a : List Int) : (geCons obj k).sat a = true ↔ k ≤ obj.eval a := by
+  simp only [geCons, Cons.sat, sumViews, List.map_cons, List.map_nil, List.foldl_cons, List.foldl_nil,
+    View.scaled_eval, decide_eq_true_eq]
+  omega
+
+/-- the root lower bound of the objective (`solver.lower_bound(&objective)` after root propagation):
+any function that never exceeds the objective of a solution and that reflects a posted bound -/
+structure RootLb (obj : View) where
+  lb : Model → Int
+  sound : ∀ m a, m.sat a = true → lb m ≤ obj.eval a
+  reflects : ∀ m k a, (addCons m (geCons obj k)).sat a = true → k ≤ lb (addCons m (geCons obj k))
+
+/-- the lower-bounding loop: assume `obj ≤ lb`; satisfiable ⇒ done, otherwise `obj ≥ lb + 1` becomes a
+hard constraint and the loop continues with the new root bound -/
+def lus (s : Solve) {obj : View} (r : RootLb obj) : Nat → Model → Option (List Int)
+  | 0, _ => none
+  | fuel + 1, m =>
+    match s.run (addCons m (leCons obj (r.lb m))) with
+    | some a => some a
+    | none => lus s r fuel (addCons m (geCons obj (r.lb m + 1)))
+
+/-- **LUS returns an optimum** (for every sound & complete oracle and every sound root bound), and it
+does so within `objective(w) - lb + 1` rounds where `w` is the solution of the feasibility check. -/
+theorem lus_optimal (s : Solve) {obj : View} (r : RootLb obj) (fuel : Nat) (m : Model) (w : List Int)
+    (hw : m.sat w = true) (hf : (obj.eval w - r.lb m).toNat < fuel) :
+    ∃ a, lus s r fuel m = some a ∧ m.sat a = true ∧ ∀ b, m.sat b = true → obj.eval a ≤ obj.eval b := by
+  induction fuel generalizing m with
+  | zero => omega
+  | succ fuel ih =>
+    simp only [lus]
+    cases hr : s.run (addCons m (leCons obj (r.lb m))) with
+    | some a =>
+      have hs := s.sound _ a hr
+      rw [addCons_sat, Bool.and_eq_true] at hs
+      refine ⟨a, rfl, hs.1, ?_⟩
+      intro b hb
+      have h1 := (leCons_sat obj _ a).1 hs.2
+      have h2 := r.sound m b hb
+      omega
+    | none =>
+      have hc := s.complete _ hr
+      -- every solution lies strictly above the refuted bound
+      have habove : ∀ b, m.sat b = true → r.lb m + 1 ≤ obj.eval b := by
+        intro b hb
+        have := hc b
+        rw [addCons_sat, hb, Bool.true_and] at this
+        have : ¬ obj.eval b ≤ r.lb m := fun h => by
+          have h' := (leCons_sat obj _ b).2 h
+          simp [h'] at this
+        omega
+      let m' := addCons m (geCons obj (r.lb m + 1))
+      have hsat' : ∀ b, m.sat b = true → m'.sat b = true := by
+        intro b hb
+        show (addCons m (geCons obj (r.lb m + 1))).sat b = true
+        rw [addCons_sat, hb, Bool.true_and]
+        exact (geCons_sat obj _ b).2 (habove b hb)
+      have hsat'' : ∀ b, m'.sat b = true → m.sat b = true := by
+        intro b hb
+        have : (addCons m (geCons obj (r.lb m + 1))).sat b = true := hb
+        rw [addCons_sat, Bool.and_eq_true] at this
+        exact this.1
+      have hlb : r.lb m + 1 ≤ r.lb m' := r.reflects m (r.lb m + 1) w (hsat' w hw)
+      have hwu := r.sound m' w (hsat' w hw)
+      obtain ⟨a, ha, hsa, hopt⟩ := ih m' (hsat' w hw) (by omega)
+      exact ⟨a, ha, hsat'' a hsa, fun b hb => hopt b (hsat' b hb)⟩
+
+/-- the whole LUS procedure: feasibility check, then the lower-bounding loop -/
+def optimiseMinLus (s : Solve) {obj : View} (r : RootLb obj) (m : Model) : Option (List Int) :=
+  match s.run m with
+  | none => none
+  | some w => lus s r ((obj.eval w - r.lb m).toNat + 1) m
+
+theorem optimiseMinLus_spec (s : Solve) {obj : View} (r : RootLb obj) (m : Model) :
+    (optimiseMinLus s r m = none ↔ ∀ a, m.sat a = false) ∧
+    (∀ a, optimiseMinLus s r m = some a → m.sat a = true ∧ ∀ b, m.sat b = true → obj.eval a ≤ obj.eval b) := by
+  simp only [optimiseMinLus]
+  cases hr : s.run m with
+  | none =>
+    exact ⟨by simp [s.complete m hr], by intro a h; cases h⟩
+  | some w =>
+    have hw := s.sound m w hr
+    obtain ⟨a, ha, hsa, hopt⟩ := lus_optimal s r _ m w hw (Nat.lt_succ_self _)
+    refine ⟨?_, ?_⟩
+    · simp only [ha, reduceCtorEq, false_iff]
+      intro h
+      simp [h w] at hw
+    · intro a' h
+      have ha' : lus s r ((obj.eval w - r.lb m).toNat + 1) m = some a := ha
+      simp only [ha', Option.some.injEq] at h
+      subst h
+      exact ⟨hsa, hopt⟩
+
+/-- `RootLb` is inhabited: the exact minimum is a root bound (the weakest a solver may compute is any
+value below it that still reflects posted bounds). -/
+def RootLb.exact (obj : View) : RootLb obj where
+  lb m := match optimum m obj false with | some v => v | none => 0
+  sound m a ha := by
+    cases h : optimum m obj false with
+    | none =>
+      have := (optimum_none_iff m obj false).1 h
+      have hm := (mem_solutions m a).2 ha
+      rw [this] at hm; cases hm
+    | some v => exact ((optimum_min_spec m obj v).1 h).2 a ha
+  reflects m k a ha := by
+    cases h : optimum (addCons m (geCons obj k)) obj false with
+    | none =>
+      have := (optimum_none_iff _ obj false).1 h
+      have hm := (mem_solutions _ a).2 ha
+      rw [this] at hm; cases hm
+    | some v =>
+      obtain ⟨⟨b, hb, hbv⟩, _⟩ := (optimum_min_spec _ obj v).1 h
+      rw [addCons_sat, Bool.and_eq_true] at hb
+      have := (geCons_sat obj k b).1 hb.2
+      simp only; omega
+
+example : optimiseMinLus firstSolve (RootLb.exact ⟨-2, 1, 0⟩)
+    (Model.mk [[0, 1, 2], [0, 1]] [Cons.linLe [⟨1, 0, 0⟩, ⟨1, 0, 1⟩] 2]) = some [2, 0] := by decide +kernel
+
 example : optimiseMin firstSolve ⟨-2, 1, 0⟩ 3 (Model.mk [[0, 1, 2], [0, 1]] [Cons.linLe [⟨1, 0, 0⟩, ⟨1, 0, 1⟩] 2])
     = some [2, 0] := by decide
 
